@@ -235,11 +235,12 @@ def RunOK (env : Env) (sorter : Class → List Slot → List Slot) : List Class 
 
 /-- "Don't trash any replicas of an underreplicated block, or replicas whose Mtimes are identical to
 needed replicas" -/
-def finalWant (b : BState) : List Slot :=
-  b.slots.map fun s =>
-    match s.repl with
-    | some t => if b.underrep || b.utd.contains t then { s with want := true } else s
-    | none => s
+def finalSlot (b : BState) (s : Slot) : Slot :=
+  match s.repl with
+  | some t => if b.underrep || b.utd.contains t then { s with want := true } else s
+  | none => s
+
+def finalWant (b : BState) : List Slot := b.slots.map (finalSlot b)
 
 inductive Change where
   | trash (mtime : Int)
@@ -248,6 +249,10 @@ inductive Change where
   | stay
   | none
   deriving DecidableEq, Repr
+
+def Change.isTrash : Change → Bool
+  | .trash _ => true
+  | _ => false
 
 /-- the final `switch` -/
 def change (env : Env) (reps : List Replica) (s : Slot) : Change :=
@@ -369,7 +374,8 @@ def physRepl (c : Class) (held : List Mount) : Nat :=
 def Result.heldBefore (r : Result) : List Mount :=
   (r.changes.filter (fun p => p.1.repl.isSome)).map (·.1.mnt)
 
-def Result.trashedMounts (r : Result) : List Mount := r.trashes.map (·.1.mnt)
+def Result.trashedMounts (r : Result) : List Mount :=
+  (r.changes.filter (fun p => p.2.isTrash)).map (·.1.mnt)
 
 /-- mounts through which the block is still visible after every trash request was carried out and
 no pull succeeded: a trash on any view of a device removes the device's replica -/
